@@ -683,3 +683,146 @@ def fromkeys_sweep(idx, res, rule: str, prefixes) -> int:
                                  "%s builds a table with %s: fromkeys stores the *same* object under every key, so what is written for one key "
                                  "(one scenario, one agent type) shows up under all of them" % (fi.qual, ast.unparse(c)[:70]))
     return n
+
+
+def _memo_attr_of(e: ast.AST) -> Optional[str]:
+    """self.C / self.__dict__.get('C'[, None]) / self.__dict__['C'] / getattr(self, 'C', None) -> 'C'"""
+    if isinstance(e, ast.Attribute) and isinstance(e.value, ast.Name) and e.value.id == "self":
+        return e.attr
+    if isinstance(e, ast.Call) and isinstance(e.func, ast.Attribute) and e.func.attr == "get" and dotted(e.func.value) == "self.__dict__" and e.args \
+            and isinstance(e.args[0], ast.Constant) and isinstance(e.args[0].value, str):
+        return e.args[0].value
+    if isinstance(e, ast.Subscript) and dotted(e.value) == "self.__dict__" and isinstance(e.slice, ast.Constant) and isinstance(e.slice.value, str):
+        return e.slice.value
+    if isinstance(e, ast.Call) and isinstance(e.func, ast.Name) and e.func.id == "getattr" and len(e.args) >= 2 and isinstance(e.args[0], ast.Name) \
+            and e.args[0].id == "self" and isinstance(e.args[1], ast.Constant):
+        return e.args[1].value
+    return None
+
+
+def value_alternatives(cls_node: Optional[ast.ClassDef], fn: ast.AST, e: ast.AST, depth: int = 0, sites: tuple = ()) -> List[ast.AST]:
+    """What a local may hold where it is used, one expression per way it is bound - looking through a *validated memo*: a read
+    ``memo[i]`` of a tuple kept in an attribute of self counts as the expression that was stored at position i, provided (a) the read
+    is nested under tests that compare every earlier position of the tuple with an expression (the current keys) and (b) every store
+    of that attribute in the class is a tuple whose earlier positions are exactly those expressions.  Then the remembered value is the
+    value the stored expression has now."""
+    if depth > 6:
+        return [e]
+    # a read of the memo itself (return cached[1])
+    if isinstance(e, ast.Subscript) and isinstance(e.value, ast.Name) and isinstance(e.slice, ast.Constant) and isinstance(e.slice.value, int) and sites:
+        alt = _memo_read(cls_node, fn, sites, e)
+        if alt is not None:
+            return value_alternatives(cls_node, alt[0], alt[1], depth + 1)
+        return [e]
+    # a call of a helper method of the class: whatever it may return, with its parameters read as the arguments
+    if isinstance(e, ast.Call) and isinstance(e.func, ast.Attribute) and isinstance(e.func.value, ast.Name) and e.func.value.id == "self" and cls_node is not None \
+            and not any(isinstance(a, ast.Starred) for a in e.args):
+        helper = next((m for m in cls_node.body if isinstance(m, ast.FunctionDef) and m.name == e.func.attr), None)
+        if helper is not None and not helper.args.vararg and not helper.args.kwarg:
+            ps = [a.arg for a in helper.args.args][1:]
+            actual = dict(zip(ps, e.args))
+            actual.update({k.arg: k.value for k in e.keywords if k.arg})
+            rets = [r for r in ast.walk(helper) if isinstance(r, ast.Return) and r.value is not None]
+            if rets and set(actual) == set(ps):
+                import copy as _copy
+                out = []
+                for r in rets:
+                    for alt in value_alternatives(cls_node, helper, r.value, depth + 1, (r,)):
+                        alt = _copy.deepcopy(alt)
+
+                        class S(ast.NodeTransformer):
+                            def visit_Name(self, node):
+                                if node.id in actual and isinstance(node.ctx, ast.Load):
+                                    return _copy.deepcopy(actual[node.id])
+                                return node
+                        # locals of the helper that are plain copies of attributes (dt = self.mod.dt) are written out first
+                        for _ in range(3):
+                            for nm in {x.id for x in ast.walk(alt) if isinstance(x, ast.Name)} - set(actual):
+                                d = deref(helper, ast.Name(id=nm, ctx=ast.Load()))
+                                if not isinstance(d, ast.Name):
+                                    class D(ast.NodeTransformer):
+                                        def visit_Name(self, node, nm=nm, d=d):
+                                            return _copy.deepcopy(d) if node.id == nm and isinstance(node.ctx, ast.Load) else node
+                                    alt = D().visit(alt)
+                        out.append(S().visit(alt))
+                return out
+    if isinstance(e, ast.Name):
+        binds = []
+        for n in ast.walk(fn):
+            if isinstance(n, ast.Assign) and len(n.targets) == 1:
+                t = n.targets[0]
+                if isinstance(t, ast.Name) and t.id == e.id:
+                    binds.append((n, n.value))
+                elif isinstance(t, (ast.Tuple, ast.List)) and any(isinstance(x, ast.Name) and x.id == e.id for x in t.elts) and isinstance(n.value, ast.Name):
+                    i = next(k for k, x in enumerate(t.elts) if isinstance(x, ast.Name) and x.id == e.id)
+                    binds.append((n, ast.copy_location(ast.Subscript(value=n.value, slice=ast.Constant(value=i), ctx=ast.Load()), n)))
+        if not binds:
+            return [e]
+        out: List[ast.AST] = []
+        for site, v in binds:
+            if isinstance(v, ast.Subscript) and isinstance(v.value, ast.Name) and isinstance(v.slice, ast.Constant) and isinstance(v.slice.value, int):
+                alt = _memo_read(cls_node, fn, sites + (site,), v)
+                if alt is not None:
+                    out += value_alternatives(cls_node, alt[0], alt[1], depth + 1)
+                    continue
+            if isinstance(v, ast.Name) and v.id == e.id:
+                continue
+            out += value_alternatives(cls_node, fn, v, depth + 1, sites + (site,))
+        return out
+    return [e]
+
+
+def _memo_read(cls_node, fn, sites, read: ast.Subscript):
+    """(function holding the store, stored expression) for a validated read memo[i]; None if the memo discipline cannot be shown."""
+    m = read.value.id
+    i = read.slice.value
+    srcs = [n.value for n in ast.walk(fn) if isinstance(n, ast.Assign) and len(n.targets) == 1 and isinstance(n.targets[0], ast.Name) and n.targets[0].id == m]
+    attrs = {_memo_attr_of(v) for v in srcs}
+    if len(attrs) != 1 or None in attrs or cls_node is None:
+        return None
+    attr = attrs.pop()
+    # names unpacked from the memo: position -> name
+    unpacked = {}
+    for n in ast.walk(fn):
+        if isinstance(n, ast.Assign) and isinstance(n.targets[0], (ast.Tuple, ast.List)) and isinstance(n.value, ast.Name) and n.value.id == m:
+            for k, x in enumerate(n.targets[0].elts):
+                if isinstance(x, ast.Name):
+                    unpacked[x.id] = k
+    # the keys the read is validated against
+    keys = {}
+    for atom, truth in [x for st_ in sites for x in nesting_atoms(fn, st_)]:
+        if not truth or not (isinstance(atom, ast.Compare) and len(atom.ops) == 1 and isinstance(atom.ops[0], (ast.Eq, ast.Is))):
+            continue
+        for a, b in ((atom.left, atom.comparators[0]), (atom.comparators[0], atom.left)):
+            pos = None
+            if isinstance(a, ast.Subscript) and isinstance(a.value, ast.Name) and a.value.id == m and isinstance(a.slice, ast.Constant):
+                pos = a.slice.value
+            elif isinstance(a, ast.Name) and a.id in unpacked:
+                pos = unpacked[a.id]
+            if pos is not None:
+                keys[pos] = ast.unparse(b)
+    if set(keys) != set(range(i)) or i == 0:
+        return None
+    stores = []
+    for f2 in [x for x in ast.walk(cls_node) if isinstance(x, (ast.FunctionDef, ast.AsyncFunctionDef)) and not getattr(x, "_absorbed", False)]:
+        for n in ast.walk(f2):
+            if isinstance(n, ast.Assign):
+                for t in n.targets:
+                    if _memo_attr_of(t) == attr or (isinstance(t, ast.Attribute) and isinstance(t.value, ast.Name) and t.value.id == "self" and t.attr == attr):
+                        stores.append((f2, n.value))
+    tuples = [(f2, v) for f2, v in stores if not (isinstance(v, ast.Constant) and v.value is None)]
+    def same(f2, stored: ast.AST, key_text: str) -> bool:
+        if ast.unparse(stored) == key_text:
+            return True
+        # both sides name a local: the same thing if the two locals are built from the same expression
+        try:
+            a_ = deref(f2, stored)
+            b_ = deref(fn, ast.parse(key_text, mode="eval").body)
+            return ast.unparse(a_) == ast.unparse(b_)
+        except SyntaxError:
+            return False
+    if not tuples or not all(isinstance(v, ast.Tuple) and len(v.elts) > i and all(same(f2, v.elts[j], keys[j]) for j in range(i)) for f2, v in tuples):
+        return None
+    # all stores must put the same thing at position i (after looking through their locals)
+    f2, v = tuples[0]
+    return f2, v.elts[i]
